@@ -203,6 +203,13 @@ impl Iterator for BitBoardIter {
     #[cfg(target_feature = "bmi2")]
     #[cfg(any(target_arch = "x86", target_arch = "x86_64"))]
     fn nth(&mut self, n: usize) -> Option<Self::Item> {
+        // skipping past the end exhausts the iterator, exactly like the default `nth`;
+        // this also keeps the shift below in range (`1 << n` needs n < 64)
+        if n >= usize::from(self.0.count()) {
+            self.0 = BitBoard::empty();
+            return None;
+        }
+
         let x = unsafe { core::arch::x86_64::_pdep_u64(1 << n, self.0.to_u64()) }.trailing_zeros()
             as u8;
         let pos = Pos::from_u8(x)?;
